@@ -71,7 +71,9 @@ Fold2All ==
 Fold2Progs == IF Tier = "thorough" THEN Fold2All ELSE SelectSeq(Fold2All, LAMBDA p : TRUE)
 
 \* constant-condition ?: : the dead arm mentions something that is used elsewhere
-Conds == << NumN(1), NumN(0), Bin("<", NumN(2), NumN(1)), Bin("==", NumN(3), NumN(3)) >>
+\* (any non-zero constant selects the first arm: 2, -1, 1 - 0 + 1, 0x100000000)
+Conds == << NumN(1), NumN(0), Bin("<", NumN(2), NumN(1)), Bin("==", NumN(3), NumN(3)), NumN(2), Un("-", NumN(1)),
+           Bin("+", Bin("-", NumN(1), NumN(0)), NumN(1)), Lit(ShlN(One(64), 32), "hex", "LL", FALSE) >>
 NThings == 8
 Things(i) == (<< Rs, Var("a"), Call("clz32", <<Rs>>), StmtExpr(<< Set(Var("a"), Bin("+", Var("a"), NumN(1))) >>, Var("a")), Imm("s"), Load(FALSE, 32, Rs),
                  \* a non-constant ?: with a statement-expression arm nested in the (possibly dropped) arm
